@@ -127,7 +127,9 @@ func (self *Interpreter) listLiteral(node ast.AnalyzedListLiteralExpression) (*v
 		if i != nil {
 			return nil, i
 		}
-		values = append(values, val)
+		// The element gets its own storage cell: otherwise, it would alias the variable it was read from.
+		elem := *val
+		values = append(values, &elem)
 	}
 
 	return value.NewValueList(values), nil
@@ -152,7 +154,9 @@ func (self *Interpreter) objectLiteral(node ast.AnalyzedObjectLiteralExpression)
 		if i != nil {
 			return nil, i
 		}
-		fields[field.Key.Ident()] = fieldValue
+		// The field gets its own storage cell: otherwise, it would alias the variable it was read from.
+		fieldCell := *fieldValue
+		fields[field.Key.Ident()] = &fieldCell
 	}
 	return value.NewValueObject(fields), nil
 }
